@@ -139,7 +139,7 @@ ClaimEvents(s) ==
   \cup (IF SeqBelow(s, 2, 1) THEN Deposits({"u1"}, {2}, {"u2"}, {"d1"}, {3}, {"p0"}) ELSE {})      \* funds the second bridge's escrow
   \cup (IF n <= 3 THEN Proposes({"p1"}, {1}, {n}, {n}, roots) ELSE {})
   \cup (IF n = 2 THEN Proposes({"p1"}, {1}, {n}, {n}, {Root(0, "T4", "h1")}) ELSE {})               \* bridge 1 commits to a tree whose leaf names bridge 2
-  \cup {Claim("x", b, o, W1, 0, "T4", 1, "h1", "none") : b \in {1, 2}, o \in 1..3}
+  \cup {[always |-> TRUE] @@ Claim("x", b, o, W1, 0, "T4", 1, "h1", "none") : b \in {1, 2}, o \in 1..3}   \* emitted however many guards fail
   \cup (IF s.now = 4 THEN ExpImp ELSE {})                                                             \* outputs must stay with their bridge across a genesis round trip
   \cup Deletes({"c1"}, {1}, 1..2)
   \cup ({Claim("x", b, o, w, 0, t, pos, "h1", "none") :
